@@ -45,7 +45,7 @@ struct C02 : DaemonScenario {
       Kernel &k = w.k; int r, wr; k.make_pipe(&r, &wr); k.ofd_ref(wr); held = k.ofds[wr]->pipe; held->buf = "Subject: partial\n";
       std::map<int, int> fds; fds[0] = r; fds[1] = QmailEnv::preloaded_pipe(w, std::string("Fs@x") + '\0' + "Tr@a.com" + '\0' + '\0'); fds[2] = QmailEnv::nullfd(w);
       blocked_pid = w.spawn("/var/qmail/bin/qmail-queue", {"qmail-queue"}, fds, 1000, GID_QMAIL, "/");
-      injectors.push_back(blocked_pid); history += " HUNG-INJECTOR"; w.counters["hung_injectors"]++;
+      injectors.push_back(blocked_pid); own_injectors.push_back(blocked_pid); history += " HUNG-INJECTOR"; w.counters["hung_injectors"]++;
       return true;
     }
     if (fam == "failing" && trunc_started < 3) {
@@ -54,7 +54,7 @@ struct C02 : DaemonScenario {
       std::string env(envs[trunc_started], lens[trunc_started]); if (trunc_started == 1) env += std::string(1100, 'r');
       std::map<int, int> fds; fds[0] = QmailEnv::preloaded_pipe(w, "Subject: f\n\nx\n"); fds[1] = QmailEnv::preloaded_pipe(w, env); fds[2] = QmailEnv::nullfd(w);
       int pid = w.spawn("/var/qmail/bin/qmail-queue", {"qmail-queue"}, fds, 1000, GID_QMAIL, "/");
-      injectors.push_back(pid); trunc_started++; history += " FAILING-INJECTION"; w.counters["failing_injections"]++;
+      injectors.push_back(pid); own_injectors.push_back(pid); trunc_started++; history += " FAILING-INJECTION"; w.counters["failing_injections"]++;
       return true;
     }
     return false;
